@@ -6,10 +6,18 @@
    gd_types    gsort definitions only: the structs in -types order (parsed tags)
    gd_blocks   gsort definitions only: (sorter type name, element type) of the blocks of the
                generated file, in file order
+   gd_value_orders  genum: the enum values in the order in which the generated file lists them
+               (every `_XValues` literal and the `case` labels of every trait method)
+   gd_name_orders   genum: per enum the trait methods in file order; gerror: per error type the
+               fields in the order Error() prints them
 
    Verdict 1: two generations differ (the property's byte-identity clause is violated).
-   Verdict 2: outputs are identical, but the order of the blocks in the gsort output is not the
-   one the model computes (sorted by (TypeName, sortTypeName) with `*` part of the name).     *)
+   Verdict 2: outputs are identical, but an order in the output is not the one the model's
+   comparators give: gsort blocks = the model's table (sorted by (TypeName, sortTypeName), `*`
+   part of the name); genum value lists ascending under Value.Less (value_lt), trait methods and
+   gerror fields ascending under string < (trait_lt / efield_lt read names).  Names are pairwise
+   distinct, so "ascending under the comparator" pins the order; which entries are listed
+   (deduplication, deleted duplicate instances) is C04/C12's subject, not judged here.       *)
 From Coq Require Import List Bool ZArith String.
 From GT Require Import Base.Verdict.
 From GT Require Import GSortModel GenDetModel Base.SortU.
@@ -19,7 +27,9 @@ Record gd_case := {
   gd_kind : string;
   gd_hashes : list string;
   gd_types : list (string * list fieldT);
-  gd_blocks : list (string * string) }.
+  gd_blocks : list (string * string);
+  gd_value_orders : list (list evalue);
+  gd_name_orders : list (list string) }.
 
 Definition all_equal (l : list string) : bool :=
   match l with
@@ -42,9 +52,14 @@ Definition model_blocks (types : list (string * list fieldT)) : list (string * s
   | None => []
   end.
 
+Definition orders_ok (c : gd_case) : bool :=
+  forallb (sorted_adj_b value_lt) (gd_value_orders c)
+  && forallb (sorted_adj_b str_lt) (gd_name_orders c).
+
 Definition gd_judge (c : gd_case) : nat :=
   verdict (all_equal (gd_hashes c))
-          (if String.eqb (gd_kind c) "gsort"
-           then pairs_eqb (gd_blocks c) (model_blocks (gd_types c)) else true).
+          ((if String.eqb (gd_kind c) "gsort"
+            then pairs_eqb (gd_blocks c) (model_blocks (gd_types c)) else true)
+           && orders_ok c).
 
 Definition gd_is_gsort (c : gd_case) : bool := String.eqb (gd_kind c) "gsort".
